@@ -193,4 +193,25 @@ def cases():
                                "builders": [{"name": "b0", "parent": "soc"}, {"name": "b1", "parent": "board", "var_options": {"LIBS": {"joiner": ":"}}}],
                                "apps": [{"name": "app", "sources": ["main.c"]}]}]}
     out.append((f, {}))
+    # 32: two modules carved out of one checkout (same download, same dldir); one `uses` the other: where both are
+    #     selected the user's order-only list names the tag file twice, elsewhere once — two different statements,
+    #     hence two objects
+    sdk = {"git": {"url": "https://example.org/sdk.git", "commit": "feedc0de"}, "dldir": "sdk"}
+    mods = [{"name": "sdk_core", "download": sdk, "sources": ["core.c"]},
+            {"name": "sdk_net", "download": sdk, "sources": ["net.c"], "uses": ["sdk_core"]}]
+    out.append((dlbase(mods, [{"name": "app_full", "sources": ["main.c"], "depends": ["sdk_core", "sdk_net"]},
+                              {"name": "app_net", "sources": ["main.c"], "depends": ["sdk_net"]}]), {}))
+    # 31: a builder that both `disables:` a module and `provides_unique:` a feature; other providers of
+    #     the feature (and the disabled module) are reached by apps: unique means the others are refused
+    mods = [{"name": "stdio_uart", "provides": ["stdio"], "sources": ["uart.c"]},
+            {"name": "stdio_rtt", "provides_unique": ["stdio"], "sources": ["rtt.c"]},
+            {"name": "heavy", "sources": ["heavy.c"]}]
+    blds = [{"name": "semihost", "disables": ["heavy"], "provides_unique": ["stdio"]},
+            {"name": "plain", "disables": ["heavy"]},
+            {"name": "both", "provides": ["stdio"], "provides_unique": ["console"], "disables": ["stdio_rtt"]}]
+    apps = [{"name": "hello", "sources": ["main.c"], "depends": ["?stdio_uart"]},
+            {"name": "echo", "sources": ["main.c"], "depends": ["stdio_uart"]},
+            {"name": "any", "sources": ["main.c"], "depends": ["stdio", "?heavy"]},
+            {"name": "rtt", "sources": ["main.c"], "depends": ["stdio_rtt"]}]
+    out.append((base(mods, apps, builders=blds), {}))
     return out
